@@ -85,9 +85,10 @@ type WdObs struct {
 }
 
 type CasesOut struct {
-	Route []RouteObs `json:"route"`
-	Wd    []WdObs    `json:"wd"`
-	Infra []string   `json:"infra"`
+	Route  []RouteObs `json:"route"`
+	Wd     []WdObs    `json:"wd"`
+	Infra  []string   `json:"infra"`
+	Panics []string   `json:"panics"` // a child process died of a Go panic in the code under test
 }
 
 func asyncMap(l []string) map[string]bool {
@@ -540,6 +541,10 @@ func cmdCases(inPath, outPath string, seed int64) int {
 		mu.Lock()
 		defer mu.Unlock()
 		var co CasesOut
+		if err == nil && code == 2 && strings.Contains(logs, "panic:") && strings.Contains(logs, "github.com/metrico/qryn/") {
+			out.Panics = append(out.Panics, "HTTP push through the production wiring: "+panicLine(logs))
+			return
+		}
 		if err != nil || code != 0 || json.Unmarshal(line, &co) != nil {
 			out.Infra = append(out.Infra, fmt.Sprintf("child-http failed (code %d, %v): %s", code, err, tail(logs, 1500)))
 			return
@@ -567,6 +572,25 @@ func cmdCases(inPath, outPath string, seed int64) int {
 		return 2
 	}
 	return 0
+}
+
+func panicLine(logs string) string {
+	i := strings.Index(logs, "panic:")
+	msg := logs[i:]
+	if j := strings.Index(msg, "\n"); j > 0 {
+		msg = msg[:j]
+	}
+	fn := ""
+	for _, ln := range strings.Split(logs[i:], "\n") {
+		if strings.HasPrefix(ln, "github.com/metrico/qryn/") {
+			fn = ln
+			if k := strings.Index(fn, "("); k > 0 {
+				fn = fn[:k]
+			}
+			break
+		}
+	}
+	return msg + " in " + fn
 }
 
 func tail(s string, n int) string {
